@@ -4,7 +4,7 @@ ASSUMPTIONS = ["path storage functions bound to the flat path model PM (include/
                "mpt_log is an empty stub"]
 REN = {"mpt_path_addchar": "verif_pm_addchar", "mpt_path_delchar": "verif_pm_delchar", "mpt_path_valid": "verif_pm_valid",
        "mpt_path_add": "verif_pm_add", "mpt_path_invalidate": "verif_pm_invalidate"}
-U = [("mptcore/parse/%s.c" % f, REN) for f in "parse_data parse_getchar".split()] + [
+U = [("mptcore/parse/%s.c" % f, REN) for f in "parse_format_pre parse_option parse_data parse_getchar".split()] + [
     "mptcore/parse/%s.c" % f for f in "parse_nextvis parse_endline parse_ncheck parse_accept".split()]
 COMMON = dict(units=U, fp=[(r"getc", ["h_getc"])], stubs=["libc.c", "pathmodel.c"], flags=["--max-field-sensitivity-array-size", "100"])
 
@@ -18,4 +18,7 @@ def queries(tier):
                     bounds="one mpt_parse_data call: " + bd,
                     outside="option/section names and nesting (format layer: C08 query), partially quoted values, escaped quotes, the enc/sep styles, values beyond %d characters, tree building (node_append)" % n,
                     timeout=600, **COMMON))
+    qs.append(Q("option_line_readback", "C08/pre.c", harness_defines={"MODE": 3}, unwind_default=10, unwind={"memchr": 6, "verif_pm_add": 34},
+                bounds="one option line 'k' <0..2 blanks> '=' <0..1 blank> <0..1 value char from {a,b}> newline through mpt_parse_format_pre: name and value read back, blanks insignificant",
+                outside="longer names/values at the format layer (value scanner: value_plain/value_quoted), sections, nesting, other styles, tree building", timeout=600, **COMMON))
     return qs
